@@ -23,6 +23,11 @@ def plan(tier):
     Z = dict(kinds=("P",), zero_when="_resize", p_scope="worker")
     pl += [(PG.reusable_resize(2, 1, 0.05), 1, Z), (PG.reusable_resize(3, 2, 0.05), 1, Z),
            (PG.reusable_resize(3, 1, 0.05), 1, Z), (PG.reusable_resize(2, 3, 0.05), 1, Z)]
+    # a worker dies while the resize is adding workers, and the manager examines the deaths
+    # while the user thread is still inserting (eager manager, one kill + one preemption)
+    KP = dict(kinds=("P", "K"), starve="eager:parent:manager", kill_when="in:_adjust_process_count",
+              p_when="get_exitcodes_terminated_worker")
+    pl += [(PG.reusable_resize(2, 3, None), 2, KP), (PG.reusable_resize(1, 3, None), 2, KP)]
     if tier == "thorough":
         TR = dict(kinds=("T",), t_when="_resize", t_scope="worker", t_cur="parent:main")
         pl += [(PG.reusable_resize(2, 1, 0.05), 2, TR),
